@@ -137,7 +137,8 @@ pub fn op_construct<K: Kern<D>, const D: usize>(
     let in_args: Vec<Value> = input.iter().map(|v| v.args(tr)).collect();
     let g_eff = if ctor == Ctor::WithKernel { TopologyGuarantee::DEFAULT } else { g };
     let args = json!({"D": D, "kernel": K::NAME, "profile": profile(), "ctor": format!("{ctor:?}"),
-        "g": format!("{g_eff:?}"), "opts": opts.name(), "input": in_args, "L": Vec::<i64>::new(), "dkey": tr.dkey.clone()});
+        "g": format!("{g_eff:?}"), "opts": opts.name(), "dedup": if ctor == Ctor::WithKernel || ctor == Ctor::WithGuarantee { 0 } else { opts.dedup },
+        "input": in_args, "L": Vec::<i64>::new(), "dkey": tr.dkey.clone()});
     let r = tr.guard("construct", || -> Result<(Dt<K, D>, i64, i64), String> {
         match ctor {
             Ctor::WithKernel => Dt::<K, D>::with_kernel(&kernel, &vs).map(|d| (d, -1, -1)).map_err(|e| variant_path(&e)),
